@@ -194,7 +194,9 @@ IsHex(w) == /\ Len(w) >= 3
             /\ LET h == Sub(w, 3, Len(w)) IN
                h = <<"zero">> \/ (h[1] \in (HexDigit \ {"zero"}) /\ AllIn(h, HexDigit))
 Unsigned(w) == IF w # <<>> /\ w[1] = "minus" THEN Tail(w) ELSE w
-IsNumber(w) == LET u == Unsigned(w) IN u # <<>> /\ (IsDec(u) \/ IsHex(u))
+IsNumber(w) == /\ w # <<>>
+               /\ w[1] \in (Digit \cup {"minus"})        \* (implied by the next line; spares TLC the search)
+               /\ LET u == Unsigned(w) IN u # <<>> /\ (IsDec(u) \/ IsHex(u))
 NumKind(w) == IF IsHex(Unsigned(w)) \/ (\A i \in DOMAIN w : w[i] \notin {"dot", "e"}) THEN "int" ELSE "float"
 
 (* String: ' body ' where every quote inside the body is doubled, i.e. every maximal run of quotes
@@ -295,6 +297,18 @@ Shape == LET r == Obs(design) IN
                                      /\ (r.err => r.toks[i].off < r.off)
 \* the code as it is differs from the design only where a named deviation fires
 DeviationsNamed == LET cr == Run(full, AllDevs) IN (Obs(cr) # Obs(design)) <=> (cr.dev # "none")
+\* the four statements above in one invariant that runs the DFA once per state (big configurations)
+AllOf(d, cr, dt) ==
+  LET r == Obs(d) IN
+  /\ r = dt
+  /\ ~d.diverged /\ d.maxidle <= 1 /\ d.steps <= 2 * Len(full) + 2 /\ ~cr.diverged
+  /\ r.err => r.off \in 0 .. Len(full)
+  /\ ~r.err => r.toks # <<>> /\ r.toks[Len(r.toks)].k = "end"
+  /\ \A i \in DOMAIN r.toks : /\ r.toks[i].off < Len(full)
+                              /\ (i < Len(r.toks) => r.toks[i].k # "end" /\ r.toks[i].off < r.toks[i + 1].off)
+                              /\ (r.err => r.toks[i].off < r.off)
+  /\ (Obs(cr) # r) <=> (cr.dev # "none")
+LexerInvariants == AllOf(Run(full, {}), Run(full, AllDevs), DTok(full))
 \* the token languages are disjoint (KindOf is well defined) - checked on every substring
 Disjoint == \A i \in 1 .. Len(full) : \A j \in i .. Len(full) :
               LET w == Sub(full, i, j) IN
